@@ -147,7 +147,8 @@ def parse_res(line):
     sx = parse_sx(ERR_RE.sub(r"(\1)", line))
     d = {"id": sx[1], "trace": sx_field(sx[2:], "trace") or [], "status": "ok",
          "touched": [int(x) for x in (sx_field(sx[2:], "touched") or [])],
-         "missed": (sx_field(sx[2:], "missed") or ["?"])[0], "typed": (sx_field(sx[2:], "typed") or ["?"])[0]}
+         "missed": (sx_field(sx[2:], "missed") or ["?"])[0], "typed": (sx_field(sx[2:], "typed") or ["?"])[0],
+         "keysdistinct": (sx_field(sx[2:], "keysdistinct") or ["?"])[0]}
     if sx_field(sx[2:], "err") is not None:
         d["status"] = "err"
     elif sx_field(sx[2:], "panic") is not None:
@@ -279,6 +280,9 @@ def engine_projection(ctx, results, what_checks):
             # the theorems about instances assume well-typed trees in parser normal form (Spec/Typing.lean)
             ctx.broken("correspondence", f"the tree of case {inp.get('id')} is not well-typed / in parser normal form with respect to "
                                          f"the schema of go/ast (wtv / nf of Spec/Typing.lean)")
+        if model.get("keysdistinct") == "0" and "content" in what_checks and "where" in what_checks:
+            # C04: elisions are told apart by their patch position (hypothesis of elision_run_kept)
+            ctx.broken("correspondence", f"case {inp.get('id')}: two elisions of the '-' side of a change have the same patch position")
         if "converse" in what_checks:
             ctx.count("missed:" + ("0" if model.get("missed") == "0" else "?" if model.get("missed") == "?" else ">0"))
             if model.get("missed") not in ("0", "?") and impl["trace"] == model["trace"]:
